@@ -217,6 +217,14 @@ def comparisons(b):
                         x, y, rel = p_, V('const', 0), {'ge': 'ne', 'lt': 'eq'}[r_]
                         break
             out.append((x, y, rel, sw.edges_for(True), sw.edges_for(False), sw.bb))
+        elif sw.kind == 'int' and on.kind != 'bin':
+            # `match n { 0 => .., k => .. }`: each literal arm is an equality test of the matched value
+            from mir import V
+            lits = [l for (l, t) in sw.edges if isinstance(l, int) and not isinstance(l, bool)]
+            if len(lits) == 1:
+                te = [(sw.bb, t) for (l, t) in sw.edges if l == lits[0]]
+                fe = [(sw.bb, t) for (l, t) in sw.edges if l != lits[0]]
+                out.append((on, V('const', lits[0]), 'eq', te, fe, sw.bb))
     for c in b.calls:
         if c.is_('Ord::cmp') and len(c.args) == 2:
             # match a.cmp(&b) { Less => .., Equal => .., Greater => .. }
